@@ -98,6 +98,43 @@ def run(chk, scratch):
     chk.cov["concrete_calls_judged"] = sum(len(e.get("results", [])) for e in ev3)
     chk.nontrivial += len(ev3)
     chk.sample({"close_step": {k: ev3[2][k] for k in ("view", "step", "class", "changed")}})
+    # growth (outside the listed property): resource.CloseableResource, the close-once wrapper (Resource.tla): sequential histories
+    # emitted by TLC and rounds of N goroutines closing at once, run on the real wrapper over a scripted io.Closer and re-judged by
+    # ResourceTrace.tla.  Discrepancies are observations, never alarms.
+    import json
+    vh = vlib.build_harness()
+    rn = vlib.run_tlc(scratch, [SPEC], "Resource", "Resource_nolock.cfg", workers=2, timeout=300, deadlock=False, fast="tiny", parse_behaviours=False)
+    vlib.tlc_must_pass(rn, "Resource_nolock")
+    chk.add_tlc("Resource without the mutex across the underlying Close (must violate UnderlyingClosedAtMostOnce)", rn)
+    if rn.violated != "UnderlyingClosedAtMostOnce":
+        raise vlib.Inconclusive("sensitivity self-test failed: Resource_nolock.cfg reported %s" % rn.violated)
+    rb = common.emit_behaviours(chk, scratch, SPEC, "Resource", "Resource.cfg", "CloseableResource: histories of Close / IsClosed by two callers, 0..2 failing closes",
+                                workers=1, fast="tiny", limit=(None if thorough else 800), seed=chk.seed)
+    rb += [{"fails": f, "steps": [], "n": n} for n in range(2, 9) for f in range(0, 5) for _ in range(6 if thorough else 1)]
+    rin = os.path.join(scratch, "c07-resource.ndjson")
+    vlib.write_ndjson(rin, rb)
+    rtr = os.path.join(scratch, "c07-resource-trace.ndjson")
+    p = vlib.run_vh(vh, ["c07", "resource", "--in", rin, "--out", rtr], timeout=600)
+    if p.returncode != 0:
+        raise vlib.Inconclusive("c07 resource driver failed: " + (p.stderr or "")[-1500:])
+    obs = common.Observing(chk)
+    evr = judge(obs, scratch, rtr, "CloseableResource runs", spec="ResourceTrace", spec_dir=SPEC)
+    chk.cov["closeable_resource_runs_judged"] = len(evr)
+    chk.cov["observations_outside_the_listed_property"] = dict(obs.seen)
+    seq = [e for e in evr if e["op"] == "ResourceSeq" and any(st["op"] == "Close" for st in e["steps"])][:30]
+    if seq:       # binding self-test: one corrupted answer must be noticed
+        bad = json.loads(json.dumps(seq))
+        k = random.Random(chk.seed).randrange(len(bad))
+        i = [j for j, st in enumerate(bad[k]["steps"]) if st["op"] == "Close"][0]
+        bad[k]["got"][i]["err"] = not bad[k]["got"][i]["err"]
+        btr = os.path.join(scratch, "c07-resource-corrupt.ndjson")
+        vlib.write_ndjson(btr, bad)
+        probe = common.Observing(chk)
+        ev0, tr0 = chk.evaluations, chk.traces
+        judge(probe, scratch, btr, "resource judge self-test (one corrupted answer)", spec="ResourceTrace", spec_dir=SPEC)
+        chk.evaluations, chk.traces = ev0, tr0
+        if "observation:resource-close-result-wrong" not in probe.seen:
+            raise vlib.Inconclusive("binding self-test failed: ResourceTrace.tla accepted a corrupted Close result")
     chk.cov["rule"] = ("tree = shape (empty, one file, one empty directory, nested, deep with empty leaves, flat) x three name classes out of 11 (plain, dot file, 'a..b', space, unicode, shell meta, "
                        "200 characters, trailing dot, newline, leading dash, archive extension) x size of the main file {0,1,4096,32767,32768,32769,3000001} x time class (even/odd second, "
                        "sub-second, 1990) x state of the destination path (absent, empty file, an older and longer archive); each on the OS filesystem and MemMapFs: Zip, Unzip, Unzip with limits, zip view, tar view (tar written by the harness with archive/tar); seeded trees up to "
